@@ -475,6 +475,20 @@ Proof.
   apply (Hgen rounds (repeat [] n) []); auto. intros x Hx. now apply repeat_spec in Hx.
 Qed.
 
+(* the running sum of weights of every walker = its initial value plus every contribution of every walker of
+   every round, each exactly once *)
+Lemma opes_sums_total : forall (A : Type) (G : GrpOps A), GrpLaws G ->
+  forall (rounds : list (list A)) (s : A), opes_sums G s rounds = fold_left (gadd G) (concat rounds) s.
+Proof.
+  intros A G HL.
+  assert (Hf : forall l a b, fold_left (gadd G) l (gadd G a b) = gadd G a (fold_left (gadd G) l b)).
+  { induction l as [|x tl IH]; intros a b; cbn [fold_left]; [reflexivity|]. now rewrite (gl_assoc G HL), IH. }
+  assert (Hr : forall hs s, opes_sum_round G s hs = fold_left (gadd G) hs s).
+  { intros [|h0 tl] s; cbn [opes_sum_round fold_left]; [reflexivity|]. now rewrite Hf. }
+  induction rounds as [|r tl IH]; intros s; cbn [opes_sums fold_left concat]; [reflexivity|].
+  fold (opes_sums G (opes_sum_round G s r) tl). rewrite IH, Hr. now rewrite fold_left_app.
+Qed.
+
 (* ------------------------------------------------------------------------------------------- *)
 (* (b) file-based multiple-walker metadynamics                                                  *)
 (* ------------------------------------------------------------------------------------------- *)
